@@ -152,7 +152,7 @@ type BrokerBatchShardIterator struct {
 
 // Reset re-sorts batch rows for batching inserting
 func (itr *BrokerBatchShardIterator) Reset() {
-	sort.Sort(itr.batch)
+	sort.Stable(itr.batch) // rows of one series keep their write order
 	itr.groupStart = 0
 	itr.groupEnd = 0
 	itr.groupShardIdx = -1
@@ -215,7 +215,7 @@ func (itr *BrokerBatchShardFamilyIterator) reset(
 	if itr.sameFamily = itr.isSameFamily(); itr.sameFamily {
 		return
 	}
-	sort.Sort(itr.rows)
+	sort.Stable(itr.rows)
 }
 
 func (itr *BrokerBatchShardFamilyIterator) isSameFamily() bool {
